@@ -103,3 +103,57 @@ func H_C19_query_longest_orf() {
 	}
 	verifAssert(vfBagUnchanged(sb, saved), "LongestORF leaves the sequences unchanged")
 }
+
+var vfSinkBytes [][]uint8
+var vfSinkInts [][]int
+var vfSinkStrs [][]string
+var vfSinkSeqs [][]*seq
+
+// H_C19_conf_capacity: conformance of the engine's capacity model (append growth and []byte(string) as the gc runtime of the pinned toolchain computes them) with the native build: whether two slices share cells after an append depends on it. Every capacity is handed to verifObserve and compared with the native run.
+// bounds: []byte(string) for lengths 0..40; appends one by one up to 70 elements for uint8, int, string and pointer elements; append of 3, 5 and 9 elements at once to slices of length 0..9
+// outside: non-escaping conversions (the compiler's 32-byte stack buffer), other element sizes
+func H_C19_conf_capacity() {
+	k := nondetRange(0, 3)
+	switch k {
+	case 0:
+		s := "0123456789012345678901234567890123456789"
+		for n := 0; n <= 40; n++ {
+			b := []uint8(s[:n])
+			vfSinkBytes = append(vfSinkBytes, b)
+			verifObserve("conv", n, cap(b))
+		}
+	case 1:
+		var b []uint8
+		var x []int
+		for n := 0; n < 70; n++ {
+			b = append(b, uint8(n))
+			x = append(x, n)
+			vfSinkBytes = append(vfSinkBytes, b)
+			vfSinkInts = append(vfSinkInts, x)
+			verifObserve("grow", n, cap(b), cap(x))
+		}
+	case 2:
+		var st []string
+		var ps []*seq
+		for n := 0; n < 70; n++ {
+			st = append(st, "x")
+			ps = append(ps, nil)
+			vfSinkStrs = append(vfSinkStrs, st)
+			vfSinkSeqs = append(vfSinkSeqs, ps)
+			verifObserve("growp", n, cap(st), cap(ps))
+		}
+	default:
+		for n := 0; n <= 9; n++ {
+			for _, add := range []int{3, 5, 9} {
+				b := make([]uint8, n)
+				b = append(b, make([]uint8, add)...)
+				x := make([]int, n)
+				x = append(x, make([]int, add)...)
+				vfSinkBytes = append(vfSinkBytes, b)
+				vfSinkInts = append(vfSinkInts, x)
+				verifObserve("bulk", n, add, cap(b), cap(x))
+			}
+		}
+	}
+	verifReach("observed")
+}
